@@ -12,4 +12,10 @@ CLAIMED = {
     },
 }
 
+CLAIMED["C14"] = {
+    "text": "Theorems for all strings and all paths: printing then parsing is the identity on every non-empty path with indices < 2^31 (print_parse), everything accepted has only such indices (accepted_standard) and re-parses from its printed form (parse_print_parse, canonical_form); missing root, empty/non-numeric/signed/fractional components and indices >= 2^31 are errors, never panics (rejects_*, component_rejects, parse_no_panic); the default path for index i is m/44'/60'/0'/0/i for all i < 2^31 and an error above (for_index). Tied to src/hdk/path.rs by running parser, printer and for_index on boundary values (2^31, 2^32, 2^64 +-1), depths 1..12, and a malformed/mutated stream; an independent grammar judge decides each response.",
+    "note": COMMON_NOTE + " u32::from_str modelled at contract level (optional '+', digits, overflow is an error).",
+    "technique": "Lean 4 theorems over a hand-written model + differential correspondence check",
+}
+
 NOT_YET = {}
